@@ -204,10 +204,13 @@ def law_formulas(eng, res, rule="R-LAW-FORMULA"):
             if any(getattr(t, "name", "") in LAWS for t in tg):
                 n += 1
                 kws = sorted(k.arg or "**" for k in c.keywords)
-                res.ob(rule, init, f"{ci.name}:law-object", "the law object is created with its name (and at most support bounds): no shapes / values / increment override", c,
+                res.ob(rule, init, f"{ci.name}:law-object", "the law object is created with its name only: no shapes / values / increment override", c,
                        set(kws) <= {"name", "longname", "a", "b"} and not c.args, f"keywords {kws}")
                 if set(kws) & {"a", "b"}:
-                    res.info(f"{init.qualname}: the law object is given support bounds {sorted(set(kws) & {'a', 'b'})} — the probability mass outside them is a numerical fact that is not decided here")
+                    # a bound on the support changes the law by the mass outside it — negligible far in the tail, ruinous close to the
+                    # mean; which of the two is a numerical fact this analysis cannot decide: "cannot speak", not a violation
+                    res.ob(rule, init, f"{ci.name}:law-support", "the law object keeps the support of its mass function (no bound cuts probability mass off)", c, False,
+                           f"support bounds {sorted(set(kws) & {'a', 'b'})} given: the probability mass outside them is not decided statically", soft=True)
     # families without an own draw must not override it at all (their draw is the base class's rvs on the frozen object)
     for ci in c09.families(eng):
         own = ci.method("draw_mw")
